@@ -84,6 +84,7 @@ static void check_vals(const bj::object& c) {
     if (got.at("D").as_int64() != D) dv.add("dimension", D, got.at("D"));
     if (!got.at("api_equal").as_bool()) dv.add("aliases of the same query agree", true, false);
     if (!got.at("simplex_of_key").as_bool()) dv.add("simplex(k) = k-th cell of filtration_simplex_range", true, false);
+    if (got.contains("refresh_ok") && !got.at("refresh_ok").as_bool()) dv.add("values and order after lowering a top cell, impose_lower_star_filtration and initialize_filtration equal those of a complex built from the modified input", true, false);
     if (got.contains("inc_exception")) dv.add("compute_incidence_between_cells on a boundary element", nullptr, got.at("inc_exception"));
     if (!dv.diffs.empty()) return;
   }
